@@ -42,7 +42,7 @@ W = "esutil/recfile/records.cpp"
 
 # rules that keep their verdict however the code is laid out (decided by term equality, effect analysis or dominance over
 # resolved calls); every other rule of this check is a template rule (vcheck.core.Check.obt)
-SEMANTIC = ('R01.1', 'R01.4', 'R01.6', 'R01.7', 'R01.3::Records::Write', 'R01.3::Records::set_file_type', 'R01.3::Recfile.write[binary]', 'R01.2::SFile.write::', 'R01.3::Recfile.open', 'R01.3::Records::read_binary_slice::transfer-', 'R01.5::io.read::rec-dispatch', 'R01.5::io.write::rec-dispatch')
+SEMANTIC = ('R01.1', 'R01.4', 'R01.6', 'R01.7', 'R01.3::Records::Write', 'R01.3::Records::set_file_type', 'R01.3::Recfile.write[binary]', 'R01.2::SFile.write::', 'R01.3::Recfile.open', 'R01.3::Records::read_binary_slice::transfer-', 'R01.5::io.read::rec-dispatch', 'R01.5::io.write::rec-dispatch', 'R01.5::sfile.write::user-header', 'R01.5::SFile.write::user-header')
 
 
 # ---------------------------------------------------------------------------
@@ -2376,6 +2376,305 @@ def _fresh_array(t):
     return t, a
 
 
+# ---------------------------------------------------------------------------
+# Where the rows go.  "Reading back returns the rows written" needs every row Write is given to land after the last byte the
+# file already holds (header, rows of earlier writes).  A FILE* has one position shared by everything done on the handle: the
+# constructor leaves a handle opened for update at the data offset (goto_offset), the readers leave it wherever they stopped, the
+# SIZE-line updater rewinds.  So the position on entry of Write is not the end of the file in general, and Write has to put it
+# there itself: on every path to the call that writes the rows the last positioning of the stream is a seek of 0 bytes from
+# SEEK_END.  Forward data flow over the CFG of Write with the finite domain {END, OTHER (positioned elsewhere), ENTRY (as the
+# caller left it), ? (handed to code this analysis does not know)}; functions of the file called on the way are analysed with the
+# state they are entered in and their parameters bound to the arguments (a seek wrapped in a helper is the same seek).
+# ---------------------------------------------------------------------------
+
+_C_SEEK = ("fseek", "fseeko", "fseeko64", "_fseeki64", "fseek64")
+_C_REPOSITION = ("rewind", "fsetpos", "fsetpos64", "freopen")
+_C_KEEP_POSITION_KIND = ("fwrite", "fprintf", "vfprintf", "fputs", "fputc", "putc", "fread", "fgets", "fgetc", "getc", "fscanf", "fflush", "ftell", "ftello", "feof",
+                         "ferror", "clearerr", "fileno", "fgetpos", "setvbuf", "setbuf", "fwrite_unlocked", "getc_unlocked")
+
+
+class CStreamPos:
+    def __init__(self, cfun, stream="mFptr"):
+        self.cfun, self.stream = cfun, stream
+        self.sites = None           # {id(call): (function name, call, states)} while recording
+        self._memo = {}
+
+    def _is_stream(self, a, pmap):
+        return cfront.render(_c_subst_params(a, pmap)) == self.stream
+
+    def _const(self, a, pmap, inits):
+        return c_const_int(_c_subst_params(c_subst(a, inits), pmap), {})
+
+    def _call(self, fn, c, S, pmap, inits, depth):
+        nm = cfront.callee_name(c)
+        args = cfront.call_args(c)
+        on_stream = [i for i, a in enumerate(args) if self._is_stream(a, pmap)]
+        # fseek and its spellings, and wrappers named after it with the same three parameters (myfseeko: fseeko or _fseeki64 by platform)
+        if (nm in _C_SEEK or (nm and "seek" in nm.lower() and not (self.cfun.get("Records::%s" % nm) or self.cfun.get(nm)))) and on_stream == [0] and len(args) == 3:
+            off, wh = self._const(args[1], pmap, inits), self._const(args[2], pmap, inits)
+            if wh == 2:
+                return frozenset(["END"]) if off == 0 else (frozenset(["OTHER"]) if off is not None else frozenset(["?"]))
+            if wh == 1 and off == 0:
+                return S
+            return frozenset(["OTHER"]) if wh is not None else frozenset(["?"])
+        if nm in _C_REPOSITION and on_stream:
+            return frozenset(["OTHER"])
+        if nm in _STREAM_OUT and on_stream and self.sites is not None:
+            old = self.sites.get(id(c))
+            self.sites[id(c)] = (fn.get("name"), c, S | (old[2] if old else frozenset()))
+        if nm in _C_KEEP_POSITION_KIND or nm in _STREAM_OUT:
+            return S
+        g = (self.cfun.get("Records::%s" % nm) or self.cfun.get(nm)) if nm else None
+        if g is not None and cfront.has_body(g) and g is not fn and depth < 5:
+            ps = cfront.params_of(g)
+            sub = {p: _c_subst_params(c_subst(a, inits), pmap) for p, a in zip(ps, args) if p}
+            return self.run(g, S, sub, depth + 1)[0]
+        if on_stream:
+            return frozenset(["?"])         # the stream handed to a function this analysis has no model of
+        return S
+
+    def _node(self, fn, n, S, pmap, inits, depth):
+        if n.c is None:
+            return S
+        calls = cfront.node_calls(n)
+        for c in reversed(calls):           # arguments before the call they are arguments of
+            S = self._call(fn, c, S, pmap, inits, depth)
+        for x in cfront.walk(n.c):
+            if x.get("kind") == "BinaryOperator" and x.get("opcode") == "=" and cfront.render(x["inner"][0]) == self.stream:
+                S = frozenset(["OTHER"])    # a stream just opened is at the start of the file
+        return S
+
+    def run(self, fn, entry, pmap=None, depth=0):
+        """(states at the normal exit, {node id: states before the node}) for the function entered in `entry`"""
+        pmap = pmap or {}
+        key = (fn.get("name"), id(fn), entry, tuple(sorted((k, cfront.render(v)) for k, v in pmap.items())), self.sites is not None)
+        if key in self._memo:
+            return self._memo[key]
+        self._memo[key] = (entry, {})       # recursion: as entered
+        cc = cfront.CCFG(fn)
+        inits = c_inits(fn)
+        before = {cc.entry.id: frozenset(entry)}
+        after = {}
+        work = [cc.entry.id]
+        while work:
+            i = work.pop()
+            n = cc.node(i)
+            out = self._node(fn, n, before.get(i, frozenset()), pmap, inits, depth)
+            if after.get(i) == out:
+                continue
+            after[i] = out
+            for j in cc.g.successors(i):
+                new = before.get(j, frozenset()) | out
+                if new != before.get(j) or j not in after:
+                    before[j] = new
+                    work.append(j)
+        res = (before.get(cc.exit.id, frozenset()), before)
+        self._memo[key] = res
+        return res
+
+
+def write_position(chk, cfun, w, wc, arms, winits):
+    """R01.3: the rows handed to Records::Write go after the last byte already in the file"""
+    R, key = "R01.3", "Records::Write::rows-go-to-the-end-of-the-file"
+    sp = CStreamPos(cfun)
+    try:
+        _, before = sp.run(w, frozenset(["ENTRY"]))
+        sp.sites = {}
+        for n, c, g in arms["bin"] + arms["other"]:
+            S = before.get(n.id, frozenset())
+            if g is None:
+                sp.sites[id(c)] = (w.get("name"), c, S)
+            else:
+                pm = {p: c_subst(a_, winits) for p, a_ in zip(cfront.params_of(g), cfront.call_args(c)) if p}
+                sp._memo.clear()
+                sp.run(g, S, pm, 1)
+        sites = list(sp.sites.values())
+        sp.sites = None
+        sp._memo.clear()
+        ctor = cfun.get("Records::Records")
+        left = sp.run(ctor, frozenset(["OTHER"]))[0] if ctor is not None and cfront.has_body(ctor) else frozenset(["?"])
+    except AnalysisError as e:
+        chk.ob(R, key, None, cwhere(w), "the stream position could not be followed through Write (%s)" % e)
+        return
+    # a stream opened with a literal "a..." mode writes at the end whatever its position
+    fopens = [c for f in cfun.values() if cfront.has_body(f) for c in cfront.calls_in(cfront.body_of(f)) if cfront.callee_name(c) in ("fopen", "fopen64", "fdopen")]
+    modes = [c_string_literal(cfront.call_args(c)[1]) for c in fopens if len(cfront.call_args(c)) >= 2]
+    if fopens and all(m is not None and m.startswith("a") for m in modes):
+        chk.ob(R, key, True, cwhere(w), "the file is opened in append mode (%s): every write goes to the end" % modes)
+        return
+    if not sites:
+        chk.ob(R, key, None, cwhere(w), "the call of Write that puts the rows of a binary file into the stream was not found")
+        return
+    ok, why = True, []
+    for fname, c, S in sites:
+        txt = "%s in %s" % (cfront.render(c), fname)
+        if "OTHER" in S:
+            ok = False
+            why.append("%s is reached with the stream positioned somewhere else than the end of the file (rewind / seek to an offset is the last positioning on a path)" % txt)
+        elif "ENTRY" in S:
+            if "OTHER" in left:
+                ok = False
+                why.append("%s is reached on a path of Write with no seek to the end of the file (fseek(mFptr, 0, SEEK_END)): the rows go wherever the handle was left, "
+                           "and the constructor leaves a handle opened for update at the data offset (goto_offset), the readers wherever they stopped: "
+                           "rows appended through mode 'r+' overwrite the rows the file holds" % txt)
+            elif "?" in left or not left:
+                ok = None if ok else ok
+                why.append("%s: position on entry of Write not known" % txt)
+        elif "?" in S or not S:
+            ok = None if ok else ok
+            why.append("%s: stream handed to code that is not modelled" % txt)
+    chk.ob(R, key, ok, cwhere(w), "on every path of Write the last positioning of the stream before the rows are written is a seek to the end of the file, so that they land after the header "
+           "and the rows already there whatever was done on the handle before%s" % ("" if not why else ": " + "; ".join(why)))
+
+
+# ---------------------------------------------------------------------------
+# Which arrays Write accepts.  The property is about any structured array; what Recfile.write guarantees of the object it hands
+# over is that its rows are one after the other (C-contiguous) and nothing else: it may be read-only (numpy.frombuffer over bytes,
+# setflags(write=False), a mode='r' memmap, a broadcast view), not aligned, not the owner of its buffer.  Write only reads the
+# buffer.  So no throw of Write may be decided by a flag of the array other than the contiguity ones.  The conditions the throws
+# are control dependent on are evaluated in three-valued logic over the flag word: flag tests (PyArray_CHKFLAGS and the macros
+# that expand to it, PyArray_FLAGS(a) & mask, ->flags & mask, PyArray_FailUnlessWriteable) are decided for each of the eight
+# valuations of WRITEABLE / ALIGNED / OWNDATA with C_CONTIGUOUS set, everything else is unknown.  A valuation under which
+# a throw is certainly taken is a class of arrays of the quantifier that cannot be written.
+# ---------------------------------------------------------------------------
+
+_NPY_FLAG_NAMES = {0x1: "C_CONTIGUOUS", 0x2: "F_CONTIGUOUS", 0x4: "OWNDATA", 0x100: "ALIGNED", 0x400: "WRITEABLE"}
+_NPY_FREE_FLAGS = (0x4, 0x100, 0x400)
+_NPY_FLAG_TESTS = ("PyArray_CHKFLAGS", "PyArray_FLAGS", "PyArray_FailUnlessWriteable")
+
+
+class _FlagWord(int):
+    """the flag word of the array: only its known bits may be looked at"""
+
+
+_NPY_API_SLOTS = {"*PyArray_API[286]": "PyArray_FailUnlessWriteable"}       # functions reached through the C-API table (fixed slots of the numpy ABI)
+
+
+def _npy_callee(c):
+    nm = cfront.callee_name(c)
+    if nm is None and c.get("kind") == "CallExpr" and c.get("inner"):
+        nm = _NPY_API_SLOTS.get(cfront.render(c["inner"][0]))
+    return nm
+
+
+def _c_flag_atoms(n):
+    return [x for x in cfront.walk(n) if (x.get("kind") == "CallExpr" and _npy_callee(x) in _NPY_FLAG_TESTS) or
+            (x.get("kind") == "MemberExpr" and x.get("name") == "flags")]
+
+
+def _c_flag_eval(n, flags):
+    """value of an integer / boolean C expression given the flag word of the array; None when it depends on anything else"""
+    n = cfront.strip(n)
+    k = n.get("kind")
+    inner = [y for y in (n.get("inner") or []) if isinstance(y, dict) and y.get("kind")]
+    known = sum(_NPY_FLAG_NAMES)
+    if k == "IntegerLiteral":
+        try:
+            return int(n.get("value"))
+        except (TypeError, ValueError):
+            return None
+    if k == "CharacterLiteral":
+        return n.get("value") if isinstance(n.get("value"), int) else None
+    if k == "CXXBoolLiteralExpr":
+        return int(bool(n.get("value")))
+    if k == "UnaryOperator" and inner:
+        v = _c_flag_eval(inner[0], flags)
+        if v is None or isinstance(v, _FlagWord):
+            return None
+        return {"!": lambda: int(not v), "~": lambda: ~v, "-": lambda: -v, "+": lambda: v}.get(n.get("opcode"), lambda: None)()
+    if k == "BinaryOperator" and len(inner) == 2:
+        op = n.get("opcode")
+        a, b = _c_flag_eval(inner[0], flags), _c_flag_eval(inner[1], flags)
+        if op in ("&&", "||"):
+            a, b = [None if (x is None or isinstance(x, _FlagWord)) else bool(x) for x in (a, b)]
+            if op == "&&":
+                return 0 if (a is False or b is False) else (1 if (a and b) else None)
+            return 1 if (a is True or b is True) else (0 if (a is False and b is False) else None)
+        if a is None or b is None:
+            return None
+        if isinstance(a, _FlagWord) or isinstance(b, _FlagWord):
+            m = b if isinstance(a, _FlagWord) else a
+            if op != "&" or isinstance(m, _FlagWord) or m & ~known:
+                return None
+            return int(flags) & m
+        try:
+            return {"&": lambda: a & b, "|": lambda: a | b, "^": lambda: a ^ b, "+": lambda: a + b, "-": lambda: a - b, "*": lambda: a * b,
+                    "==": lambda: int(a == b), "!=": lambda: int(a != b), "<": lambda: int(a < b), "<=": lambda: int(a <= b),
+                    ">": lambda: int(a > b), ">=": lambda: int(a >= b), "<<": lambda: a << b if 0 <= b < 64 else None}.get(op, lambda: None)()
+        except Exception:
+            return None
+    if k == "ConditionalOperator" and len(inner) == 3:
+        c = _c_flag_eval(inner[0], flags)
+        if c is None or isinstance(c, _FlagWord):
+            return None
+        return _c_flag_eval(inner[1] if c else inner[2], flags)
+    if k == "CallExpr":
+        nm, args = _npy_callee(n), cfront.call_args(n)
+        if nm == "PyArray_CHKFLAGS" and len(args) == 2:
+            m = _c_flag_eval(args[1], flags)
+            if m is None or isinstance(m, _FlagWord) or m & ~known:
+                return None
+            return int((int(flags) & m) == m)
+        if nm == "PyArray_FLAGS" and len(args) == 1:
+            return _FlagWord(flags)
+        if nm == "PyArray_FailUnlessWriteable":
+            return 0 if int(flags) & 0x400 else -1
+        return None
+    if k == "MemberExpr" and n.get("name") == "flags":
+        return _FlagWord(flags)
+    return None
+
+
+def write_accepts_any_flags(chk, w, wc, winits):
+    """R01.3: no throw of Records::Write is decided by the WRITEABLE / ALIGNED / OWNDATA flag of the array"""
+    R, key = "R01.3", "Records::Write::no-throw-decided-by-writeable-aligned-owndata"
+    view = wc.view()
+    ok, why = True, []
+    for r in wc.nodes:
+        if r.kind != "raise" or r.id not in view.reach:
+            continue
+        flagged, others = [], []
+        for b, lab in view.controlling_branches(r):
+            if b.c is None or lab not in ("T", "F"):
+                continue
+            cond = c_subst(b.c, winits)
+            (flagged if _c_flag_atoms(cond) else others).append((cond, lab))
+        if not flagged:
+            continue
+        rels = c_controls(wc, r, winits)
+        if holds(rels, "mFileType", "!=", "BINARY_FILE"):
+            continue                        # a throw of the text path
+        rejected, unknown = [], False
+        for bits in range(1 << len(_NPY_FREE_FLAGS)):
+            fl = 0x3 | sum(f for i, f in enumerate(_NPY_FREE_FLAGS) if bits >> i & 1)
+            vals = [_c_flag_eval(cond, fl) for cond, lab in flagged]
+            if any(v is None or isinstance(v, _FlagWord) for v in vals):
+                unknown = True
+                continue
+            if all(bool(v) == (lab == "T") for v, (cond, lab) in zip(vals, flagged)):
+                rejected.append(fl)
+        txt = " and ".join("%s%s" % ("" if lab == "T" else "not ", cfront.render(cond)) for cond, lab in flagged)
+        if rejected and len(rejected) < (1 << len(_NPY_FREE_FLAGS)):
+            # the other conditions of the throw: tests that an array of the text/binary kind in hand passes are not in the way
+            plain = all(any(s in cfront.render(cond) for s in ("PyObject_TypeCheck", "PyArray_Check", "mDebug", "mFileType")) for cond, lab in others)
+            full = 0x3 | sum(_NPY_FREE_FLAGS)
+            alone = ["without " + _NPY_FLAG_NAMES[f] for f in _NPY_FREE_FLAGS if (full & ~f) in rejected] + \
+                    ["with " + _NPY_FLAG_NAMES[f] for f in _NPY_FREE_FLAGS if (0x3 | f) in rejected and 0x3 not in rejected]
+            msg = "%s at line %s is taken when %s: a C-contiguous array %s cannot be written although Write only reads its buffer" % (
+                r.text()[:80], r.lineno, txt, " / ".join(alone) or "with flag word(s) %s" % ", ".join(hex(x) for x in rejected[:4]))
+            if plain:
+                ok = False
+            elif ok:
+                ok = None
+            why.append(msg)
+        elif unknown:
+            if ok:
+                ok = None
+            why.append("%s at line %s depends on a flag test that could not be decided (%s)" % (r.text()[:60], r.lineno, txt))
+    chk.ob(R, key, ok, cwhere(w), "every C-contiguous array is accepted whatever its WRITEABLE / ALIGNED / OWNDATA flags (read-only arrays are structured arrays like any other and Write "
+           "only reads the buffer)%s" % ("" if not why else ": " + "; ".join(why)))
+
+
 def payload(chk, repo, cfun):
     R = "R01.3"
     eng = effects.Effects(repo, c_summaries())
@@ -2424,6 +2723,19 @@ def payload(chk, repo, cfun):
     w0 = _layout_only(wargs[0]) if len(wargs) == 1 else None
     ok = None if len(wargs) != 1 else _same_array(w0)
     chk.ob(R, "Recfile.write[binary]::writes-view-of-callers-array", ok, fi.where(), "Records::Write receives data.view(ndarray): the caller's bytes, dtype and byte order as they are (%s)" % [show(t) for t in wargs])
+    # the same on the Python side of the writer: no raise of the binary path is decided by a flag of the array other than contiguity
+    _free = {"writeable", "w", "aligned", "a", "owndata", "o", "behaved", "b", "carray", "ca", "farray", "fa", "writebackifcopy", "x"}
+    _is_flags = lambda x: isinstance(x, tuple) and len(x) == 3 and x[0] == "attr" and x[2] == "flags"
+    _free_flag = lambda x: isinstance(x, tuple) and len(x) == 3 and ((x[0] == "attr" and _is_flags(x[1]) and str(x[2]).lower() in _free) or
+                                                                     (x[0] == "sub" and _is_flags(x[1]) and is_lit(x[2], str) and x[2][1].lower() in _free))
+    hits = []
+    for e, n in all_raises(bev):
+        for atom, truth in path_literals(e, n):
+            if any(_free_flag(x) for x in subterms(atom)):
+                hits.append("raise at line %s when %s%s" % (n.lineno, "" if truth else "not ", show(atom)))
+    chk.ob(R, "Recfile.write[binary]::no-raise-decided-by-writeable-aligned-owndata", not hits, fi.where(),
+           "no raise of the binary write path is decided by the WRITEABLE / ALIGNED / OWNDATA flag of the caller's array: read-only arrays are structured arrays like any other "
+           "and writing only reads them (%s)" % (hits or "none"))
     # C++ Write
     w = cfun["Records::Write"]
     chk.analysed_unit("Records::Write")
@@ -2528,6 +2840,8 @@ def payload(chk, repo, cfun):
             any(g is not None and not _c_single_fwrite(g) for _, _, g in arms["bin"])
         okd = False if swapped else None
     chk.ob(R, "Records::Write::binary-dispatch", okd, cwhere(w), "binary files take the single-fwrite path (%s)" % disp)
+    write_position(chk, cfun, w, wc, arms, winits)
+    write_accepts_any_flags(chk, w, wc, winits)
     sft = cfun["Records::set_file_type"]
     chk.analysed_unit("Records::set_file_type")
     okf, seen = file_type_by_delimiter(sft)
@@ -3922,8 +4236,122 @@ def _positional_name(repo, ev, c, i):
     return ps[i] if i < len(ps) and i >= len(a.posonlyargs) - skip else None
 
 
+def _param_only(t):
+    """is the term built from parameters, constants and keys.get(...) / keys.pop(...) / keys[...] only (nothing read from the
+    file, the file system or the handle)"""
+    for x in subterms(t):
+        if not x or not isinstance(x[0], str):
+            continue
+        if x == SELF or x[0] in ("glob", "mcall", "expr", "rec", "phi", "mutable", "unbound", "callx", "elem", "ctx"):
+            return False
+        if x[0] == "meth" and len(x) == 5 and not (isinstance(x[1], tuple) and x[1][:1] == ("param",) and x[2] in ("get", "pop")):
+            return False
+        if x[0] == "call" and len(x) >= 3 and x[1] not in ("bool", "int", "len", "isinstance"):
+            return False
+    return True
+
+
+def user_value_handed_on(chk, repo, R, key, q, callee, role, pos, is_user, what):
+    """The front end `q` hands the value the user gave for `what` to `callee` (keyword `role` / positional `pos`) on every path:
+    the variable that carries it is not overwritten by something that is not derived from it unless the condition of the
+    overwrite says the user gave none.  True: the argument is (derived from) the user's value on every path.  False: on some path
+    a value not derived from it replaces it under a condition that looks at the parameters only and not at the value (nothing
+    read from the file or the handle can justify it), or the argument is a constant, or it is not handed over at all.
+    None: anything else."""
+    fi = repo.func(q)
+    ev = Ev(repo, fi)
+    user = lambda t: any(is_user(x) for x in subterms(t))
+    calls = find_calls(ev, named(callee))
+    if not calls:
+        chk.ob(R, key, None, fi.where(), "call of %s not found in %s" % (callee, fi.name))
+        return
+
+    def none_given(lits):
+        """do the literals say the user gave nothing (value is None / falsy / key absent)"""
+        for atom, truth in lits:
+            if is_user(atom) and not truth:
+                return True
+            if atom[0] == "cmp" and atom[1] in ("Is", "Eq") and truth and is_user(atom[2]) and atom[3] == NONE:
+                return True
+            if atom[0] == "cmp" and atom[1] == "In" and not truth and atom[2] == lit(what):
+                return True
+        return False
+
+    def judge_replacement(lits, shown):
+        """a value not derived from the user's replaces it under `lits`"""
+        if none_given(lits):
+            return True, None
+        if any(user(atom) for atom, _ in lits):
+            return None, "%s replaces the user's %s under a condition on it that is not recognised" % (shown, what)
+        if all(_param_only(atom) for atom, _ in lits):
+            cond = " and ".join(("" if tr else "not ") + show(at) for at, tr in lits) or "unconditionally"
+            return False, "%s replaces the user's %s when %s: a condition that does not look at the %s and at nothing of the file, so a call with a %s that takes this path loses it" % (
+                shown, what, cond, what, what)
+        return None, "%s replaces the user's %s under a condition this rule cannot judge" % (shown, what)
+
+    verdicts, why = [], []
+    for e, n, c in calls:
+        a = kwarg(c, role)
+        if a is None and pos is not None and len(c.args) > pos and not any(isinstance(x, ast.Starred) for x in c.args[:pos + 1]):
+            a = c.args[pos]
+        if a is None:
+            carried = any(isinstance(x, ast.Starred) for x in c.args) or any(k.arg is None for k in c.keywords)
+            verdicts.append(None if carried else False)
+            why.append("%s at line %s hands no %s over" % (norm(c)[:60], getattr(c, "lineno", "?"), what))
+            continue
+        t = e.ev(a, n)
+        if e is ev and isinstance(a, ast.Name):
+            defs = e.rd()[n.id].get(a.id) or ()
+            v = True if defs else None
+            for d in sorted(defs):
+                if d == e.cfg.entry.id:
+                    if not user(e._param(a.id)):
+                        v = None
+                    continue
+                dn = e.cfg.node(d)
+                td = e._def_term(dn, a.id)
+                if user(td):
+                    continue
+                inc = e.rd()[dn.id].get(a.id) or ()
+                kills = any((user(e._param(a.id)) if i == e.cfg.entry.id else user(e._def_term(e.cfg.node(i), a.id))) for i in inc)
+                if not kills:
+                    continue                # a default set before the user's value is looked at
+                ok, msg = judge_replacement(path_literals(e, dn), "`%s` at line %s" % (norm(dn.ast)[:50], dn.lineno))
+                if ok is not True:
+                    why.append(msg)
+                    v = False if (ok is False or v is False) else None
+            if v is True and not user(t):
+                v = None
+            verdicts.append(v)
+        elif t[0] == "ifexp" and user(t[2]) != user(t[3]):
+            cond, truth = t[1], not user(t[2])          # the arm that is not the user's value is taken when cond is `truth`
+            while cond[0] == "not" and len(cond) == 2:
+                cond, truth = cond[1], not truth
+            one = canon_cmp(cond[1], cond[2], cond[3], truth) if cond[0] == "cmp" and len(cond) == 4 else (cond, truth)
+            ok, msg = judge_replacement([one], "the other arm of `%s`" % norm(a)[:60])
+            if ok is not True:
+                why.append(msg)
+            verdicts.append(ok)
+        elif user(t) and t[0] not in ("phi", "ifexp"):
+            verdicts.append(True)
+        elif is_lit(t):
+            verdicts.append(False)
+            why.append("%s hands the constant %s over as the %s" % (norm(c)[:60], show(t), what))
+        else:
+            verdicts.append(None)
+            why.append("%s=%s not recognised" % (role, show(t)))
+    ok = False if False in verdicts else (None if None in verdicts else True)
+    chk.ob(R, key, ok, fi.where(), "%s hands the user's %s to %s on every path: no assignment replaces it by a value not derived from it unless the user gave none%s" % (
+        fi.name, what, callee, "" if not why else " (%s)" % "; ".join(why)))
+
+
 def front_ends(chk, repo):
     R = "R01.5"
+    hdr_of_keys = lambda x: (len(x) >= 4 and x[0] == "meth" and x[1] == ("param", "keys") and x[2] in ("get", "pop") and x[3][:1] == (lit("header"),)) or \
+        (len(x) == 3 and x[0] == "sub" and x[1] == ("param", "keys") and x[2] == lit("header")) or x == ("param", "header")
+    user_value_handed_on(chk, repo, R, "sfile.write::user-header-handed-to-SFile.write", "esutil.sfile.write", "write", "header", 1, hdr_of_keys, "header")
+    user_value_handed_on(chk, repo, R, "SFile.write::user-header-handed-to-_write_header", "esutil.sfile.SFile.write", "_write_header", "header", 1,
+                         lambda x: x == ("param", "header"), "header")
     has_data = lambda t: mentions_term(t, ("param", "data"))
     table = [
         ("esutil.sfile.write", "SFile", {0: "outfile"}), ("esutil.sfile.write", "write", {0: "data", "header": "keys.get('header', None)"}),
